@@ -1,5 +1,5 @@
 """C03: caller contracts of the six named fairness metrics (wiring against the MetricFrame / aggregate / base-rate contracts)."""
-from ..contracts.fairness_metrics import SPEC, NamedMetric
+from ..contracts.fairness_metrics import SPEC, GeneratedMetricsTable, NamedMetric
 from ..pyvc import verify
 
 
@@ -17,4 +17,5 @@ def items(rep):
                 if f == "equalized_odds_ratio" and agg == "worst_case":
                     can = [("worst_case_ratio_uses_max", verify.replace_expr("min(eo.ratio(method=method))", "max(eo.ratio(method=method))"))]
                 out.append((NamedMetric(f, agg), can))
+    out.append((GeneratedMetricsTable(), [("names_without_the_transform", verify.replace_expr("'{0}_{1}'.format(base_metric.__name__, variant)", "'{0}'.format(base_metric.__name__)"))]))
     return out
